@@ -3737,6 +3737,7 @@ func (a *Association) movePendingDataChunkToInflightQueue(chunkPayload *chunkPay
 	// Assign TSN and original send time
 	chunkPayload.tsn = a.generateNextTSN()
 	chunkPayload.since = time.Now()
+	chunkPayload.firstSent = chunkPayload.since
 	chunkPayload.nSent = 1
 
 	a.checkPartialReliabilityStatus(chunkPayload)
@@ -3975,7 +3976,13 @@ func (a *Association) checkPartialReliabilityStatus(chunkPayload *chunkPayloadDa
 				)
 			}
 		} else if stream.reliabilityType == ReliabilityTypeTimed {
-			elapsed := int64(time.Since(chunkPayload.since).Seconds() * 1000)
+			// The lifetime runs from the first transmission of the message, not from
+			// the (re)transmission that is being made right now.
+			firstSent := chunkPayload.firstSent
+			if chunkPayload.head != nil {
+				firstSent = chunkPayload.head.firstSent
+			}
+			elapsed := int64(time.Since(firstSent).Seconds() * 1000)
 			if elapsed >= int64(stream.reliabilityValue) {
 				chunkPayload.setAbandoned(true)
 				a.rackRemove(chunkPayload)
